@@ -68,7 +68,7 @@ func scenC11(x *Exec) {
 	nr := 1 + g.Intn(4)
 	for i := 0; i < nr; i++ {
 		f := FilterSpec{}
-		switch g.Pick(5) {
+		switch g.Pick(8) {
 		case 0:
 			f.Prefix = "agg"
 		case 1:
@@ -77,6 +77,12 @@ func scenC11(x *Exec) {
 			f.Regex = `\.a\.`
 		case 3:
 			f.Sub = "in."
+		case 4:
+			f.Regex = `\.(x|all)$` // anchored at the end of the name: the value and timestamp of an aggregate line follow it
+		case 5:
+			f.Sub = "000" // occurs in the formatted value of every aggregate line ("3.000000"), in no name
+		case 6:
+			f.NotSub = "9466" // occurs in every timestamp of this scenario, in no name
 		}
 		tp.Routes = append(tp.Routes, RouteSpec{Type: "capture", Key: fmt.Sprintf("r%d", i), F: f})
 	}
